@@ -39,6 +39,7 @@ type scen struct {
 	api    string // graph | copy
 	cbErr  bool
 	racing bool // another writer may store a node between this copy's Exists and Push
+	refDst bool // the destination implements registry.ReferencePusher (the root is pushed together with its reference)
 }
 
 func jobs(tier string) []driver.Job {
@@ -111,6 +112,12 @@ func jobs(tier string) []driver.Job {
 				out = append(out, mkJob(scen{d: d, root: root, conc: 2, api: api, racing: true}, 1, 0, []int{0}))
 			}
 		}
+		// Copy into a destination that pushes the root with its reference (registry.ReferencePusher)
+		if d.Name == "diamond" || d.Name == "dup-layer" || d.Name == "subject-chain" {
+			for _, prep := range preps[:2] {
+				out = append(out, mkJob(scen{d: d, root: root, prepop: prep, conc: 2, api: "copy", refDst: true}, 1, 0, []int{0}))
+			}
+		}
 		// callback error injection (F=1)
 		cd := 1
 		if th {
@@ -127,7 +134,7 @@ func mkJob(s scen, D, F int, bases []int, shard ...int) driver.Job {
 	if len(shard) == 2 {
 		sh, nsh = shard[0], shard[1]
 	}
-	name := fmt.Sprintf("%s/root=%s/prep=%v/conc=%d/%s/cberr=%v/D%d/bases%v", s.d.Name, s.d.Nodes[s.root].Name, s.prepop, s.conc, s.api, s.cbErr, D, bases) + map[bool]string{true: "/racing-writer", false: ""}[s.racing] + fmt.Sprintf("/shard%d.%d", sh, nsh)
+	name := fmt.Sprintf("%s/root=%s/prep=%v/conc=%d/%s/cberr=%v/D%d/bases%v", s.d.Name, s.d.Nodes[s.root].Name, s.prepop, s.conc, s.api, s.cbErr, D, bases) + map[bool]string{true: "/racing-writer", false: ""}[s.racing] + map[bool]string{true: "/reference-pusher", false: ""}[s.refDst] + fmt.Sprintf("/shard%d.%d", sh, nsh)
 	return driver.Job{Name: name, Run: func(c *driver.Ctx) {
 		var lastW *World
 		c.Explore(driver.Scenario{
@@ -171,7 +178,10 @@ func (s scen) make(last **World) (func(), func(*vs.Result) *driver.Fail) {
 	rootDesc := d.Nodes[s.root].Desc
 	srcM.Tag(context.Background(), rootDesc, "ref")
 	src := &SrcTarget{Src: Src{W: w, Inner: srcM}, R: srcM, P: srcM}
-	dst := &Dst{W: w, Inner: dstM}
+	var dst oras.Target = &Dst{W: w, Inner: dstM}
+	if s.refDst {
+		dst = &RefDst{Dst{W: w, Inner: dstM}}
+	}
 	w.Racing = s.racing
 	var cbInjected error
 	cb := func(kind string) func(context.Context, ocispec.Descriptor) error {
